@@ -432,7 +432,7 @@ def cerror(e, kt):
     elif n == "SubstrValidationError":
         k = f"(ESubstr {cstr(e.substr)})"
     elif n == "RegexValidationError":
-        k = f"(ERegex {cstr(e.pattern)})"
+        k = f"(ERegex ({cstr(e.pattern)}, {cre(e.pattern)}))"
     elif n == "MissingElementValidationError":
         k = f"(EMissingElement {cZ(e.index)})"
     elif n == "ExtraElementValidationError":
@@ -442,7 +442,7 @@ def cerror(e, kt):
     elif n == "ExtraKeyValidationError":
         k = f"(EExtraKey {ckey(e.extra_key, kt)})"
     elif n == "SchemaMismatchValidationError":
-        k = "EMismatch"
+        k = "(EMismatch " + clist([cschema(t, kt) for t in e.expected_schemas]) + ")"
     elif n == "InvalidUUIDVersionValidationError":
         k = f"(EUuidVersion {copt(e.actual_version, cN)})"
     else:
